@@ -739,7 +739,7 @@ pub fn run(ctx: &Ctx) -> i32 {
     }
     // stage 4: the real daemon's observation socket (and the exporter behind it), end to end
     let workers = (ctx.threads as u64 / 2).clamp(2, 8);
-    let sum = crate::daemon::run_part(ctx, &mut rep, ctx.cases(10 * workers, 300 * workers), workers);
+    let sum = crate::daemon::run_part(ctx, &mut rep, ctx.cases(10 * workers, 100 * workers), workers);
     if let Some(why) = &sum.skipped {
         println!("note: end-to-end daemon part skipped ({}); the other parts are unaffected", why);
     }
